@@ -191,4 +191,13 @@ end
 /-- drawPage → NewStackingContextFromPage: the root element's box is unconditionally a context -/
 def paintOrder (root : Box) : List PEv := (ctxOfBox root none).1
 
+/-- drawPage: the page box's own background (`@page{background}`), then the canvas background (propagated from
+    the root element or from <body>; layoutBackgrounds removed it from the root box), then the root element's
+    stacking context.  `pageBg` / `canvasBg`: the event ids of the two backgrounds when present.
+    (Page border, marks and margin boxes are outside this model.) -/
+def pagePaint (pageBg canvasBg : Option Nat) (root : Box) : List PEv :=
+  (match pageBg with | some p => [(p, Layer.background)] | none => [])
+  ++ (match canvasBg with | some c => [(c, Layer.background)] | none => [])
+  ++ paintOrder root
+
 end WR.C16
